@@ -392,6 +392,10 @@ type distrRunner struct {
 	restorePower                         bool
 	savedPower                           *sdkmath.Int // LastTotalPower before zeroTotalPower, restored after the next distribution epoch
 	f17aSeen                             bool
+	// parameter updates (dom_distribution_params.go)
+	mintDenom                 string // exomint MintDenom in force
+	paramUpdates, switchLower int
+	haltSigAs                 string // directed probes: the sig a halt of this history is reported under
 }
 
 func (r *distrRunner) op(op, obs string) {
@@ -404,6 +408,7 @@ func (r *distrRunner) start(tag string) {
 	r.op("distr.reset", "ok")
 	r.op("distr.note "+tag, "ok")
 	r.op(fmt.Sprintf("distr.cfg %s %s %s %s", h.distrID, h.mintID, h.reward, h.tax), "ok")
+	r.denomOp()
 	for _, e := range c.App.EpochsKeeper.AllEpochInfos(c.Ctx) {
 		st := 0
 		if e.EpochCountingStarted {
@@ -433,6 +438,7 @@ func (r *distrRunner) fee(amt *big.Int) {
 func (r *distrRunner) block(d time.Duration) bool {
 	c, env := r.c, r.env
 	before := readDistr(c, c.Ctx)
+	otherBefore := r.otherSupply()
 	var total int64
 	var vals []distrValIn
 	res := distrStep(c, d, func(ctx sdk.Context) { total, vals = distrInputs(c, ctx) })
@@ -440,7 +446,11 @@ func (r *distrRunner) block(d time.Duration) bool {
 	if res.Halt != "" {
 		r.op(op, "halt")
 		env.Eval("C17.halt")
-		env.Violate("C17.halt", haltSig(res.Halt), "block processing panicked: "+res.Halt, r.hist)
+		sig := haltSig(res.Halt)
+		if r.haltSigAs != "" {
+			sig = r.haltSigAs
+		}
+		env.Violate("C17.halt", sig, "block processing panicked: "+res.Halt, r.hist)
 		env.Outcome("block:halt")
 		return false
 	}
@@ -475,10 +485,12 @@ func (r *distrRunner) block(d time.Duration) bool {
 	// ---------------- monitors on the real state
 	// (1) supply changes only by the mint, exactly once per mint-epoch end
 	env.Eval("C17.supply")
-	wantSupply := new(big.Int).Add(before.Supply, new(big.Int).Mul(r.h.reward, big.NewInt(int64(mintEnded))))
+	// (the reward, identifier and denom in force: they follow every accepted MsgUpdateParams, dom_distribution_params.go)
+	wantSupply := new(big.Int).Add(before.Supply, new(big.Int).Mul(r.nativeReward(), big.NewInt(int64(mintEnded))))
 	if after.Supply.Cmp(wantSupply) != 0 {
-		env.Violate("C17.supply", "supply-delta", fmt.Sprintf("supply %s -> %s with %d mint-epoch end(s) of reward %s", before.Supply, after.Supply, mintEnded, r.h.reward), r.hist)
+		env.Violate("C17.supply", "supply-delta", fmt.Sprintf("supply %s -> %s with %d end(s) of the configured mint identifier %s, reward %s", before.Supply, after.Supply, mintEnded, r.h.mintID, r.nativeReward()), r.hist)
 	}
+	r.paramMonitors(otherBefore, mintEnded)
 	env.Eval("C17.mintacc")
 	if after.Mint.Cmp(before.Mint) != 0 {
 		env.Violate("C17.mintacc", "mint-account-keeps-coins", fmt.Sprintf("exomint account %s -> %s", before.Mint, after.Mint), r.hist)
@@ -500,7 +512,7 @@ func (r *distrRunner) block(d time.Duration) bool {
 		// the whole fee-collector balance moves (mint of the same block may refill it afterwards
 		// or, if its notification came first, be part of what moved)
 		env.Eval("C17.moved")
-		mintedNow := new(big.Int).Mul(r.h.reward, big.NewInt(int64(mintEnded)))
+		mintedNow := new(big.Int).Mul(r.nativeReward(), big.NewInt(int64(mintEnded)))
 		if new(big.Int).Add(moved, after.FC).Cmp(new(big.Int).Add(before.FC, mintedNow)) != 0 {
 			env.Violate("C17.moved", "not-all-moved", fmt.Sprintf("fee collector %s, moved %s, left %s, minted %s", before.FC, moved, after.FC, mintedNow), r.hist)
 		}
@@ -518,7 +530,7 @@ func (r *distrRunner) block(d time.Duration) bool {
 				wantFC = new(big.Int)
 			}
 			if id == r.h.mintID {
-				wantFC.Add(wantFC, r.h.reward)
+				wantFC.Add(wantFC, r.nativeReward())
 			}
 		}
 		if after.FC.Cmp(wantFC) != 0 || moved.Cmp(wantMoved) != 0 {
@@ -614,6 +626,7 @@ func domDistribution(env *Env) error {
 	n := env.Int("histories", 20)
 	maxBlocks := env.Int("blocks", 40)
 	rng := NewRNG(env.Report.Seed)
+	prng := NewRNG(env.Report.Seed ^ 0x70617261) // parameter updates: a stream of their own
 	env.Report.Domain = "distribution"
 
 	// ---- directed regression histories (on the real code): F-17a minimal, F-17b two-AVS staker
@@ -622,6 +635,7 @@ func domDistribution(env *Env) error {
 	distrScenarioZeroPower(env)
 	distrScenarioEmptyStakers(env)
 	distrScenarioSlashedToZero(env)
+	distrScenarioParams(env) // accepted parameter updates in the middle of a history (dom_distribution_params.go)
 
 	ids := []string{epochstypes.DayEpochID, epochstypes.HourEpochID, epochstypes.MinuteEpochID, epochstypes.WeekEpochID} // store (alphabetical) order
 	powerChoices := []int64{100, 101, 150, 1000, 4999}
@@ -759,6 +773,8 @@ func domDistribution(env *Env) error {
 			if rng.Chance(1, 30) {
 				r.slash(rng.Intn(cfg.NOperators), []int64{100, 100, 50, 7}[rng.Intn(4)])
 			}
+			// governance: MsgUpdateParams of x/exomint / x/feedistribution (identifier, reward, denom, tax)
+			r.randomParams(prng)
 			// block time step
 			var d time.Duration
 			infos := c.App.EpochsKeeper.AllEpochInfos(c.Ctx)
@@ -800,6 +816,7 @@ func domDistribution(env *Env) error {
 			env.Sample(strings.Join(r.hist[:min(len(r.hist), 12)], " ; "))
 		}
 		env.Outcome(fmt.Sprintf("history:distr>0=%v,mint>0=%v,stakerpaid>0=%v,zeropower>0=%v,emptylist>0=%v,zerostakers>0=%v", r.distrEpochs > 0, r.mintEpochs > 0, r.stakerPaid > 0, r.zeroPowerEpochs > 0, r.emptyListEpochs > 0, r.zeroStakerEpochs > 0))
+		env.Outcome(fmt.Sprintf("history:param-updates>0=%v,mint-identifier->lower-or-equal>0=%v", r.paramUpdates > 0, r.switchLower > 0))
 	}
 	return nil
 }
